@@ -17,7 +17,9 @@ import (
 	"verifharness/xport"
 )
 
-var entries = []string{"Handle", "Handle-presrc", "HandleX", "ControlFrameHandler-inline", "ControlFrameHandler-intermediate", "HandleControlMessage", "HandleSideControlMessage", "ReadData"}
+var entries = []string{"Handle", "Handle-presrc", "HandleX", "ControlFrameHandler-inline", "ControlFrameHandler-intermediate", "HandleControlMessage", "HandleSideControlMessage", "ReadData",
+	// the control frame between the fragments of a TEXT message whose validity is being checked
+	"ControlFrameHandler-intermediate-text", "ReadData-intermediate-text"}
 
 func peerOf(side ref.Side) ref.Side {
 	if side == ref.SideServer {
@@ -79,6 +81,33 @@ func runControl(c *mon.C, entry string, side ref.Side, op byte, payload []byte, 
 		}
 		data, e := io.ReadAll(rd)
 		if e == nil && string(data) != "abcd" {
+			return nil, fmt.Errorf("harness: surrounding message corrupted: %q", data)
+		}
+		return nil, e
+	case "ControlFrameHandler-intermediate-text", "ReadData-intermediate-text":
+		mk := func(op byte, fin bool, p []byte) []byte {
+			fh := ref.Header{Fin: fin, Op: op, Masked: h.Masked, Mask: h.Mask}
+			return ref.Frame{H: fh, Payload: p}.Encode()
+		}
+		// "é" is split across the two fragments, the control frame sits between its halves
+		stream := append(append(mk(ref.OpText, false, []byte("a\xc3")), frame...), mk(ref.OpCont, true, []byte("\xa9d"))...)
+		var data []byte
+		var e error
+		if entry == "ReadData-intermediate-text" {
+			rw := xport.RW{Reader: xport.NewChunker(stream, plan), Writer: dst}
+			if side == ref.SideServer {
+				data, _, e = wsutil.ReadClientData(rw)
+			} else {
+				data, _, e = wsutil.ReadServerData(rw)
+			}
+		} else {
+			rd := &wsutil.Reader{Source: xport.NewChunker(stream, plan), State: st, CheckUTF8: true, OnIntermediate: wsutil.ControlFrameHandler(dst, st)}
+			if _, e := rd.NextFrame(); e != nil {
+				return nil, fmt.Errorf("harness: NextFrame: %v", e)
+			}
+			data, e = io.ReadAll(rd)
+		}
+		if e == nil && string(data) != "a\xc3\xa9d" {
 			return nil, fmt.Errorf("harness: surrounding message corrupted: %q", data)
 		}
 		return nil, e
@@ -542,7 +571,7 @@ func main() {
 	mon.Main(&mon.Spec{
 		Property: "C08",
 		Level:    "exploration",
-		Rule: "cases: ping and pong x every payload length 0..125 x both sides x 8 entry points (ControlHandler.Handle with masked source / pre-unmasked source, HandlePing/Pong/Close, ControlFrameHandler in-line and as OnIntermediate, HandleControlMessage and its Client/Server shortcuts, ReadData in-line) under varied source chunk plans; close: all 65536 codes x valid/invalid reasons x both sides (through Handle in quick, spread over all entry points in thorough) plus empty, 1-byte, longest-reason and 29 boundary codes through every entry point; " +
+		Rule: "cases: ping and pong x every payload length 0..125 x both sides x 10 entry points (ControlFrameHandler as OnIntermediate and the ReadData helpers also between the halves of a character split across two fragments of a TEXT message under UTF-8 checking; ControlHandler.Handle with masked source / pre-unmasked source, HandlePing/Pong/Close, ControlFrameHandler in-line and as OnIntermediate, HandleControlMessage and its Client/Server shortcuts, ReadData in-line) under varied source chunk plans; close: all 65536 codes x valid/invalid reasons x both sides (through Handle in quick, spread over all entry points in thorough) plus empty, 1-byte, longest-reason and 29 boundary codes through every entry point; " +
 			"ControlWriter: both constructors x 8 buffers x both sides x 3 opcodes x ALL write-size sequences of <= 4 writes over {0,1,60,62,63,64,124,125,126,200} x flush positions. Replies are parsed by the reference parser and checked against the peer's header rules, ws.CheckHeader, the close-payload classes and the expected content; distinct = (kind, entry, side, length/plan/code range).",
 		Assumptions: []string{"for codes the statement leaves open (1012-1014, >= 5000) either echo or 1002 is accepted but reply and returned error must agree", "a ControlWriter is reusable after Flush (limit counted per control frame)"},
 		Subs:        []mon.Sub{subPingPong(), subCloseAllCodes(), subCloseEntries(), subControlWriter()},
